@@ -272,16 +272,86 @@ Definition sp_or_end (rest : string) : bool :=
 Lemma sp_or_end_stops : forall r, sp_or_end r = true -> stops r = true.
 Proof. intros [|a r] H; [reflexivity|]. simpl in *. apply Ascii.eqb_eq in H. now subst. Qed.
 
+(* what can follow a dotted chain: the end, or a character that is neither an identifier character nor a dot *)
+Definition ends_chain (rest : string) : bool :=
+  match rest with EmptyString => true | String a _ => (negb (idchar a) && negb (Ascii.eqb a "."))%bool end.
+Lemma sp_or_end_chain : forall r, sp_or_end r = true -> ends_chain r = true.
+Proof. intros [|a r] H; [reflexivity|]. simpl in *. apply Ascii.eqb_eq in H. now subst. Qed.
+Lemma ends_chain_stops : forall r, ends_chain r = true -> stops r = true.
+Proof. intros [|a r] H; [reflexivity|]. simpl in *. now apply Bool.andb_true_iff in H as [H _]. Qed.
+
+Lemma slen_app : forall a b : string, String.length (a ++ b) = String.length a + String.length b.
+Proof. induction a; intros; simpl; [reflexivity | now rewrite IHa]. Qed.
+
+Lemma render_path_cons : forall q x y ys,
+  render_path q (x :: y :: ys) = fqq q x ++ String "." (render_path q (y :: ys)).
+Proof. reflexivity. Qed.
+
+Lemma path_len : forall q xs x rest, List.length xs <= String.length (render_path q (x :: xs) ++ rest).
+Proof.
+  induction xs as [|y ys IH]; intros x rest; [simpl; lia|].
+  rewrite render_path_cons, sapp_assoc, slen_app. simpl String.length at 2. simpl List.length.
+  specialize (IH y rest). simpl in *. lia.
+Qed.
+
+(* generic: a reader [rd] that reads one encoded name back reads a dotted chain of them back *)
+Lemma read_path_gen_ok : forall (rd : string -> option (string * string)) (enc : string -> string) (ok : string -> bool),
+  (forall x r, ok x = true -> stops r = true -> rd (enc x ++ r) = Some (x, r)) ->
+  forall xs x fuel rest, forallb ok (x :: xs) = true -> ends_chain rest = true -> List.length xs < fuel ->
+  read_path_gen rd fuel (join "." (map enc (x :: xs)) ++ rest) = Some (x :: xs, rest).
+Proof.
+  intros rd enc ok Hrd. induction xs as [|y ys IH]; intros x fuel rest Hok Hr Hf.
+  - destruct fuel as [|f]; [simpl in Hf; lia|]. simpl in Hok. apply Bool.andb_true_iff in Hok as [Hx _].
+    simpl join. simpl read_path_gen. rewrite (Hrd x rest Hx (ends_chain_stops _ Hr)).
+    destruct rest as [|c r]; [reflexivity|]. simpl in Hr. apply Bool.andb_true_iff in Hr as [_ Hr].
+    destruct (Ascii.eqb c "."); [discriminate | reflexivity].
+  - destruct fuel as [|f]; [simpl in Hf; lia|].
+    cbn [forallb] in Hok. apply Bool.andb_true_iff in Hok as [Hx Hys].
+    change (join "." (map enc (x :: y :: ys))) with (enc x ++ String "." (join "." (map enc (y :: ys)))).
+    rewrite sapp_assoc. simpl read_path_gen. rewrite (Hrd x _ Hx eq_refl).
+    change (String "." (join "." (map enc (y :: ys))) ++ rest) with (String "." (join "." (map enc (y :: ys)) ++ rest)).
+    cbv iota. rewrite Ascii.eqb_refl. rewrite IH; auto. simpl in Hf. lia.
+Qed.
+
+Lemma table_of_tpath : forall t, talias t = None -> table_of_path (tpath t) = Some t.
+Proof.
+  intros [n sc al] H. simpl in H. subst al. unfold table_of_path, tpath. simpl.
+  rewrite rev_app_distr. simpl. now rewrite rev_involutive.
+Qed.
+
+Lemma tpath_cons : forall t, exists x xs, tpath t = x :: xs.
+Proof. intros [n [|s sc] al]; unfold tpath; simpl; eauto. Qed.
+
+Lemma table_ok_parts : forall q t, table_ok q t = true ->
+  forallb (name_ok q) (tpath t) = true /\ talias t = None.
+Proof.
+  intros q [n sc al] H. unfold table_ok in H. simpl in H.
+  apply Bool.andb_true_iff in H as [H Ha]. apply Bool.andb_true_iff in H as [Hn Hs].
+  split; [|destruct al; [discriminate | reflexivity]].
+  unfold tpath. simpl. rewrite forallb_app, Hs. simpl. now rewrite Hn.
+Qed.
+
+Lemma render_table_path : forall q t, talias t = None -> render_table q t = render_path q (tpath t).
+Proof. intros q t H. unfold render_table. now rewrite H. Qed.
+
+Lemma read_table_gen_ok : forall (rd : string -> option (string * string)) q t rest,
+  (forall x r, name_ok q x = true -> stops r = true -> rd (fqq q x ++ r) = Some (x, r)) ->
+  table_ok q t = true -> ends_chain rest = true ->
+  read_table_gen rd (render_table q t ++ rest) = Some (t, rest).
+Proof.
+  intros rd q t rest Hrd H Hr. destruct (table_ok_parts _ _ H) as [Hp Ha].
+  rewrite render_table_path by assumption. unfold read_table_gen, render_path.
+  destruct (tpath_cons t) as (x & xs & E). rewrite E in *.
+  rewrite (read_path_gen_ok rd (fqq q) (name_ok q) Hrd); auto.
+  - rewrite <- E, table_of_tpath by assumption. reflexivity.
+  - pose proof (path_len q xs x rest) as L. unfold render_path in L. lia.
+Qed.
+
 Lemma read_table_ok : forall q t rest, table_ok q t = true -> sp_or_end rest = true ->
   read_table q (render_table q t ++ rest) = Some (t, rest).
 Proof.
-  intros q [n [s|]] rest H Hr; unfold table_ok in H; cbn [tname tschema] in H; apply Bool.andb_true_iff in H as [Hn Hs];
-    unfold render_table, read_table; cbn [tname tschema].
-  - rewrite sapp_assoc. rewrite read_name_fq by (auto; reflexivity).
-    change (("." ++ fqq q n) ++ rest) with (String "." (fqq q n ++ rest)). cbv iota. rewrite Ascii.eqb_refl.
-    rewrite read_name_fq; auto using sp_or_end_stops.
-  - rewrite read_name_fq; auto using sp_or_end_stops.
-    destruct rest as [|a r]; [reflexivity|]. simpl in Hr. apply Ascii.eqb_eq in Hr. subst a. reflexivity.
+  intros q t rest H Hr. unfold read_table. apply read_table_gen_ok; auto using sp_or_end_chain.
+  intros x r Hx Hs. now apply read_name_fq.
 Qed.
 
 (* ---------- depth scanning and the body splitter ---------- *)
@@ -324,9 +394,10 @@ Qed.
 
 Lemma scan_table : forall q t d, table_ok q t = true -> scan d (render_table q t) = Some d.
 Proof.
-  intros q [n [s|]] d H; unfold table_ok in H; simpl in H; apply Bool.andb_true_iff in H as [Hn Hs]; unfold render_table; simpl.
-  - rewrite scan_app, scan_fqq by auto. simpl. apply scan_fqq; auto.
-  - apply scan_fqq; auto.
+  intros q t d H. destruct (table_ok_parts _ _ H) as [Hp Ha]. rewrite render_table_path by assumption.
+  unfold render_path. apply scan_plain; (apply sforall_join; [reflexivity|]);
+    rewrite forallb_forall; intros x Hx; apply in_map_iff in Hx as (n & <- & Hn);
+    (apply fqq_not; [eapply forallb_In; eauto | tauto]).
 Qed.
 
 Lemma split_body_scan : forall x d acc d' s, scan d x = Some d' ->
